@@ -173,3 +173,108 @@ Lemma trim_overlap_example :
   trim_end_matches [97; 98; 97] (trim_start_matches [97; 98; 97] [97; 98; 97; 98; 97]) = [98; 97] /\
   op_replace [97; 97; 97] [97; 97] [120] = [120; 97] /\ op_replace [97; 195; 169] [] [45] = [45; 97; 45; 195; 169; 45].
 Proof. repeat split. Qed.
+
+(* ---------- replace ---------- *)
+Lemma pieces_fuel_nonempty p : forall f s, pieces_fuel f p s <> [].
+Proof.
+  induction f as [|f IH]; intro s; simpl; [discriminate|].
+  destruct (is_prefix p s); [discriminate|].
+  destruct s as [|b t]; [discriminate|]. destruct (pieces_fuel f p t); discriminate.
+Qed.
+
+Lemma join_cons_head (r : bytes) b h tl : join r ((b :: h) :: tl) = b :: join r (h :: tl).
+Proof. destruct tl; reflexivity. Qed.
+
+(* replace = join the pieces with the replacement, at every fuel *)
+Lemma replace_fuel_join p r : forall f s, replace_fuel f p r s = join r (pieces_fuel f p s).
+Proof.
+  induction f as [|f IH]; intro s; [reflexivity|].
+  cbn [replace_fuel pieces_fuel]. destruct (is_prefix p s) eqn:P.
+  - rewrite IH. pose proof (pieces_fuel_nonempty p f (drop (len p) s)) as NE.
+    destruct (pieces_fuel f p (drop (len p) s)) as [|h tl]; [congruence|]. reflexivity.
+  - destruct s as [|b t]; [reflexivity|]. rewrite IH.
+    pose proof (pieces_fuel_nonempty p f t) as NE.
+    destruct (pieces_fuel f p t) as [|h tl]; [congruence|]. rewrite join_cons_head. reflexivity.
+Qed.
+
+(* replacing a pattern by itself changes nothing, at every fuel *)
+Lemma replace_fuel_self p : forall f s, replace_fuel f p p s = s.
+Proof.
+  induction f as [|f IH]; intro s; [reflexivity|].
+  cbn [replace_fuel]. destruct (is_prefix p s) eqn:P.
+  - rewrite IH. symmetry. apply is_prefix_app. exact P.
+  - destruct s as [|b t]; [reflexivity|]. rewrite IH. reflexivity.
+Qed.
+
+(* a piece never contains the pattern: an occurrence inside it would have been taken by the scan *)
+Lemma is_prefix_app_r p : forall x y, is_prefix p x = true -> is_prefix p (x ++ y) = true.
+Proof.
+  induction p as [|a p IH]; intros x y H; [reflexivity|].
+  destruct x as [|c x]; [discriminate|]. simpl in *.
+  apply andb_true_iff in H as [H1 H2]. rewrite H1. simpl. apply IH. exact H2.
+Qed.
+
+Lemma pieces_fuel_concat p : forall f s, exists rest, s = hd [] (pieces_fuel f p s) ++ rest.
+Proof.
+  induction f as [|f IH]; intro s; simpl.
+  - exists []. rewrite app_nil_r. reflexivity.
+  - destruct (is_prefix p s); [exists s; reflexivity|].
+    destruct s as [|b t]; [exists []; reflexivity|].
+    destruct (IH t) as [rest E]. destruct (pieces_fuel f p t) as [|h tl]; simpl in *.
+    + exists t. reflexivity.
+    + exists rest. rewrite E at 1. reflexivity.
+Qed.
+
+Lemma find_from_none_iff p : forall s i, find_from p s i = None <->
+  is_prefix p s = false /\ match s with [] => True | _ :: t => find_from p t (i + 1) = None end.
+Proof.
+  intros s i. destruct s as [|b t]; simpl; destruct (is_prefix p _); split; intro H; try tauto; try discriminate;
+    try (destruct H; discriminate); try (split; auto).
+Qed.
+
+Lemma find_from_shift p : forall s i j, find_from p s i = None -> find_from p s j = None.
+Proof.
+  induction s as [|b t IH]; intros i j H; apply find_from_none_iff in H as [H1 H2]; apply find_from_none_iff; split; auto.
+  eapply IH. exact H2.
+Qed.
+
+Lemma pieces_fuel_clean p : p <> [] -> forall f s, (length s < f)%nat ->
+  Forall (fun x => find_sub p x = None) (pieces_fuel f p s).
+Proof.
+  intro Pne. induction f as [|f IH]; intros s L; [lia|].
+  assert (Enil : find_sub p [] = None).
+  { unfold find_sub. simpl. destruct p; [congruence | reflexivity]. }
+  cbn [pieces_fuel]. destruct (is_prefix p s) eqn:P.
+  - constructor; [exact Enil|]. apply IH.
+    destruct p as [|a p']; [congruence|]. destruct s as [|c s']; [discriminate|].
+    pose proof (is_prefix_app _ _ P) as E. apply (f_equal (@length N)) in E. rewrite app_length in E.
+    simpl in E. simpl in L. lia.
+  - destruct s as [|b t]; [constructor; [exact Enil | constructor]|].
+    simpl in L. assert (Lt : (length t < f)%nat) by lia. pose proof (IH t Lt) as F.
+    destruct (pieces_fuel_concat p f t) as [rest E].
+    destruct (pieces_fuel f p t) as [|h tl] eqn:Eq; [exfalso; exact (pieces_fuel_nonempty p f t Eq)|].
+    simpl in E. inversion F as [|x l Hh Htl]. subst x l. constructor; [|exact Htl].
+    unfold find_sub. apply find_from_none_iff. split.
+      * destruct (is_prefix p (b :: h)) eqn:P2; [|reflexivity].
+        apply (is_prefix_app_r p (b :: h) rest) in P2. simpl in P2. rewrite <- E in P2. simpl in P. congruence.
+      * eapply find_from_shift. exact Hh.
+Qed.
+
+(* replace, as a whole: s = pieces joined by the pattern, the result = the same pieces joined by the
+   replacement, no piece contains the pattern (so the occurrences are the leftmost non-overlapping ones) *)
+Lemma replace_lemma s p r : p <> [] ->
+  join p (pieces p s) = s /\ op_replace s p r = join r (pieces p s) /\
+  Forall (fun x => find_sub p x = None) (pieces p s) /\ op_replace s p p = s.
+Proof.
+  intro Pne. unfold pieces, op_replace. destruct p as [|a p']; [congruence|].
+  repeat split.
+  - rewrite <- replace_fuel_join. apply replace_fuel_self.
+  - apply replace_fuel_join.
+  - apply pieces_fuel_clean; [discriminate | lia].
+  - apply replace_fuel_self.
+Qed.
+
+Example replace_pieces_example :
+  pieces [97; 97] [97; 97; 97; 98; 97; 97] = [[]; [97; 98]; []] /\
+  op_replace [97; 97; 97; 98; 97; 97] [97; 97] [120] = [120; 97; 98; 120].
+Proof. split; reflexivity. Qed.
